@@ -349,6 +349,16 @@ class Job:
         import threading
         n = ctx.size(280, 6000)
         self.items = ['C17-%s-hist-%d' % (ctx.seed, i) for i in range(n)]
+        # histories of ONE project file (props/c17_files.py), spread evenly over the same workers
+        nf = ctx.size(160, 4000)
+        every = max(1, n // nf)
+        files = ['C17-%s-file-%d' % (ctx.seed, i) for i in range(nf)]
+        mixed = []
+        for i, it in enumerate(self.items):
+            mixed.append(it)
+            if i % every == 0 and files:
+                mixed.append(files.pop())
+        self.items = mixed + files
         self.jobs = jobs
         self.result = self.error = None
         self.wall = 0.0
@@ -359,7 +369,7 @@ class Job:
         import time
         t0 = time.time()
         try:
-            self.result = common.parallel_map('props.c17_hist', 'history_item', self.items, jobs=self.jobs)
+            self.result = common.parallel_map('props.c17_files', 'item', self.items, jobs=self.jobs)
         except BaseException as e:     # noqa: re-raised in the main thread
             self.error = e
         self.wall = time.time() - t0
@@ -368,8 +378,17 @@ class Job:
         self.thread.join()
         if self.error is not None:
             raise self.error
+        from props import c17_files
+        frecs = [r for r in self.result if r.get('kind') == 'file']
+        self.result = [r for r in self.result if r.get('kind') != 'file']
         for rec in self.result:
             judge_record(ctx, rec)
+        for rec in frecs:
+            c17_files.judge_record(ctx, rec)
+        ctx.notes.append('files stream: %d histories of one project file, %d analyses (Script(path=p) / Script(buffer, path=p)) '
+                         'judged against the text they analyse, %d of them with the tokenize/ast oracle, %d returned objects judged'
+                         % (len(frecs), sum(r['analyses'] for r in frecs), sum(r['with_oracle'] for r in frecs),
+                            sum(r['judged'] for r in frecs)))
         steps = sum(len(r['labels']) for r in self.result)
         ctx.notes.append('history stream: %d histories on one Script each, %d calls, %d get_names answers compared '
                          'with tokenize/ast, %d returned objects judged, %.0f s wall of %d workers (concurrent)'
